@@ -92,6 +92,10 @@ class CallMixin:
             return some(c, self.ev(n.args[0], st, old))
         if name == "val":
             return unopt(self.ev(n.args[0], st, old))
+        if name == "final":
+            # value of a (reassigned) parameter at exit; other locals keep their exit value anyway
+            nm = n.args[0].id
+            return st.env.get("$final_" + nm, st.env.get(nm))
         if name == "ite":
             t = self.truth(self.ev(n.args[0], st, old))
             a, b = self.unify(self.ev(n.args[1], st, old), self.ev(n.args[2], st, old))
@@ -382,6 +386,9 @@ class CallMixin:
         if isinstance(s, tuple) and s[0] == "Opt" and isinstance(s[1], tuple):
             recv = unopt(recv)
             s = recv.sort
+        if isinstance(s, tuple) and s[0] in ("Map", "Set", "Seq") and at == "clear" and not n.args:
+            if self.store_back(f.value, self.empty_of(s), st):
+                return T(NONE, "none")
         if isinstance(s, tuple) and s[0] == "Map":
             if at == "get":
                 k = self.coerce(self.ev(n.args[0], st, old), s[1], "get")
